@@ -91,6 +91,12 @@ pub fn run(sc: &Value) -> Value {
         out.insert("ops".into(), json!("f"));
         out.insert("ctm".into(), json!("f"));
     }
+    if kind == "stroke" {
+        // the sign class of the width as the library sees it (f32): the specification's rule for
+        // non-positive and NaN widths needs nothing else
+        let wd = parse_style(&sc["style"], den).width;
+        out.insert("width_class".into(), json!(if wd.is_nan() { "nan" } else if wd > 0.0 { "pos" } else { "nonpos" }));
+    }
     out.insert("outcome".into(), json!(if r.is_ok() { "ok" } else { "panic" }));
     out.insert("pix".into(), pix(dt.get_data()));
     for (k, v) in extra {
